@@ -34,7 +34,7 @@ def _case(draw):
                                  "flat_max": 5}))
     c["mode"] = draw(st.sampled_from(["eval", "train"]))
     c["target"] = draw(st.sampled_from(["forward", "forward", "inverse", "log_prob", "sample"]))
-    c["pre"] = draw(st.sampled_from([None, None, "train_step"]))     # an ordinary training step (forward + backward in training mode) first
+    c["pre"] = draw(st.sampled_from([None, None, "train_step", "other_direction_first"]))     # an ordinary training step (forward + backward in training mode) first
     c["n"] = draw(st.integers(2, 3))
     c["seed"] = draw(st.integers(0, 10 ** 6))
     c["zeros"] = draw(st.booleans())
@@ -126,6 +126,18 @@ def run_case(case):
             obj.zero_grad()
             obj.train(train)
             res.labels.append("after_train_step")
+        if case.get("pre") == "other_direction_first" and b.invertible and not b.inv_via_forward and not b.umnn and target != "sample":
+            # sampling before scoring (or the reverse): layers that cache derived matrices in evaluation mode fill one half of their
+            # cache here and complete it in the differentiated call below
+            with torch.no_grad():
+                try:
+                    if target == "inverse":
+                        m(X, C)
+                    else:
+                        m.inverse(X, C)        # (X need not lie in the range: a refusal is as good as no call)
+                    res.labels.append("other_direction_first")
+                except Exception:
+                    pass
         if target == "inverse":
             with torch.no_grad():
                 try:
